@@ -66,6 +66,12 @@ var ExprShapes = []string{
 	"a ? b ? U in ( 1 , 2.5 )",
 	"a ? b in ( 1 ) ? U in ( 2.5 )",
 	"a ? ( b ? U in ( 1 ) )",
+	// 49-53: join conditions (position 10 only): one-sided and same-sided comparisons, also under not()
+	"$left . a ? $left . b",
+	"not ( $left . a ? $left . b )",
+	"not ( $right . a ? 1 )",
+	"$left . a ? 1 and $left . b ? $left . a",
+	"a , not ( $right . b ? $right . a )",
 }
 
 func isBinaryOpKind(k parser.TokenKind) bool {
